@@ -5,6 +5,7 @@ interceptor's "anything to report" test read).
 -/
 import Interceptor.Gen.Fn_twcc
 import Interceptor.Model.Twcc
+import Interceptor.Facts.FnTwccMap
 namespace Interceptor.Facts.FnTwccHeld
 open Interceptor.Gen.Fn Interceptor.GoSem Interceptor
 
@@ -13,5 +14,18 @@ open Interceptor.Gen.Fn Interceptor.GoSem Interceptor
 /-- ★ `PacketsHeld` as written in the source returns the counter the model calls `held`. -/
 theorem packetsHeld_src_eq_model (g : S_twcc_Recorder) (m : Twcc.Recorder)
     (r : g.packetsHeld = (m.held : Int)) : twcc_Recorder_PacketsHeld g = (m.held : Int) := r
+
+/-! ## twcc: NewRecorder -/
+
+/-- ★ `NewRecorder` as written in the source is the model's `newRecorder`: the arrival-time map is the empty
+map (related to the model's by `FnTwccMap.Rel`), the sender SSRC is stored, nothing is held and the feedback
+packet count starts at 0. -/
+theorem newRecorder_src_eq_model (sender : Nat) :
+    let g := twcc_NewRecorder (sender : Int)
+    let m := Twcc.newRecorder sender
+    FnTwccMap.Rel g.arrivalTimeMap m.map ∧ g.senderSSRC = (m.sender : Int) ∧ g.mediaSSRC = (m.media : Int) ∧
+      g.fbPktCnt = (m.fbCnt : Int) ∧ g.packetsHeld = (m.held : Int) ∧
+      twcc_Recorder_PacketsHeld g = 0 := by
+  refine ⟨⟨rfl, rfl, rfl⟩, rfl, rfl, rfl, rfl, rfl⟩
 
 end Interceptor.Facts.FnTwccHeld
